@@ -75,9 +75,9 @@ func Class(ret uint32) string {
 // Shape is the result of the structural pass.
 type Shape struct {
 	LoadsNr, LoadsArch, LoadsOther bool
-	UsesScratch, UsesX, UsesALU     bool
-	UsesJset                        bool
-	Consts                          []uint32 // jump constants
+	UsesScratch, UsesX, UsesALU    bool
+	UsesJset                       bool
+	Consts                         []uint32 // jump constants
 }
 
 // Check verifies that the kernel would accept the program (seccomp_check_filter + bpf_check_classic essentials)
